@@ -29,6 +29,7 @@ Proof. unfold pk_set_a. apply pk_a_lor. apply pk_b_lt. Qed.
 Section NfaInv.
 Variable V : Type.
 Variable lbytes : N -> N.
+Variable lab_ok : N -> Prop.          (* what is known of every label: a byte, or nothing *)
 
 Ltac bstep H :=
   match type of H with
@@ -59,7 +60,7 @@ Proof.
 Qed.
 
 (* before build_outputs: no output position assigned; labels are bytes *)
-Definition PLO (st : nstate V) : Prop := n_outpos st = 0 /\ forall c t, In (c, t) (n_edges st) -> c < 256.
+Definition PLO (st : nstate V) : Prop := n_outpos st = 0 /\ forall c t, In (c, t) (n_edges st) -> lab_ok c.
 
 Lemma edge_insert_in es c t k v : In (k, v) (edge_insert es c t) -> (k = c /\ v = t) \/ In (k, v) es.
 Proof.
@@ -73,7 +74,7 @@ Qed.
 Lemma PLO_default : PLO (nstate_default V).
 Proof. split; [reflexivity|intros c t []]. Qed.
 
-Lemma add_walk_PLO : forall rest (n : nfa V) sid n' fin, Forall (fun b => b < 256) rest -> AllSt PLO n ->
+Lemma add_walk_PLO : forall rest (n : nfa V) sid n' fin, Forall lab_ok rest -> AllSt PLO n ->
   add_walk V n sid rest = Ok (n', fin) -> AllSt PLO n'.
 Proof.
   induction rest as [|c rest IH]; intros n sid n' fin Hb HA H; cbn [add_walk] in H.
@@ -87,7 +88,7 @@ Proof.
     intros k v Hin. apply edge_insert_in in Hin as [[-> _]|Hin]; [exact Hc|exact (Hl k v Hin)].
 Qed.
 
-Lemma add_PLO (n : nfa V) p v n' : Forall (fun b => b < 256) p -> AllSt PLO n ->
+Lemma add_PLO (n : nfa V) p v n' : Forall lab_ok p -> AllSt PLO n ->
   add V lbytes n p v = Ok n' -> AllSt PLO n'.
 Proof.
   intros Hb HA H. unfold add in H.
@@ -141,7 +142,7 @@ Proof.
 Qed.
 
 (* build_outputs: every output position and parent stays within the output table *)
-Definition PL2 (k : N) (st : nstate V) : Prop := n_outpos st <= k /\ forall c t, In (c, t) (n_edges st) -> c < 256.
+Definition PL2 (k : N) (st : nstate V) : Prop := n_outpos st <= k /\ forall c t, In (c, t) (n_edges st) -> lab_ok c.
 Definition OutInv (n : nfa V) : Prop :=
   AllSt (PL2 (N.of_nat (length (n_outputs n)))) n
   /\ Forall (fun o => o_parent o <= N.of_nat (length (n_outputs n))) (n_outputs n).
@@ -203,6 +204,7 @@ End NfaInv.
 (* ---- NFA side, continued: the pattern loop -------------------------------------------------- *)
 Section NfaLoop.
 Variable V : Type.
+Notation byte := (fun b : N => b < 256).
 
 Ltac bstep H :=
   match type of H with
@@ -228,16 +230,16 @@ Qed.
 
 Lemma add_all_inv : forall pvs (n n' : nfa V),
   (forall p v, In (p, v) pvs -> Forall (fun b => b < 256) p) ->
-  AllSt V (PLO V) n -> n_outputs n = [] ->
-  add_all V (fun _ => 1) n pvs = Ok n' -> AllSt V (PLO V) n' /\ n_outputs n' = [].
+  AllSt V (PLO V byte) n -> n_outputs n = [] ->
+  add_all V (fun _ => 1) n pvs = Ok n' -> AllSt V (PLO V byte) n' /\ n_outputs n' = [].
 Proof.
   induction pvs as [|[p v] r IH]; intros n n' Hb HA Ho H; cbn [add_all] in H; [inversion H; subst; auto|].
   bstep H. apply (IH a n'); [intros q w Hq; apply (Hb q w); right; exact Hq| | |exact H].
-  - exact (add_PLO V _ n p v a (Hb p v (or_introl eq_refl)) HA E).
+  - exact (add_PLO V _ byte n p v a (Hb p v (or_introl eq_refl)) HA E).
   - rewrite (add_outputs _ _ _ _ _ E). exact Ho.
 Qed.
 
-Lemma nfa_new_PLO k : AllSt V (PLO V) (nfa_new V k).
+Lemma nfa_new_PLO k : AllSt V (PLO V byte) (nfa_new V k).
 Proof.
   intros i st Hg. unfold nfa_new in Hg. cbn [n_states] in Hg.
   destruct (N.eq_dec i 1) as [->|H1]; [rewrite ngss in Hg; inversion Hg; apply PLO_default|].
@@ -246,12 +248,12 @@ Proof.
 Qed.
 
 Theorem bw_sparse_nfa_inv k pvs (n : nfa V) : (forall p v, In (p, v) pvs -> Forall (fun b => b < 256) p) ->
-  bw_build_sparse_nfa V k pvs = Ok n -> OutInv V n.
+  bw_build_sparse_nfa V k pvs = Ok n -> OutInv V byte n.
 Proof.
   intros Hb H. unfold bw_build_sparse_nfa in H. bstep H.
   destruct (n_len a =? 0); [discriminate|]. destruct (U24_MAX <? n_len a); [discriminate|].
   destruct (add_all_inv pvs _ _ Hb (nfa_new_PLO k) eq_refl E) as [HA Ho].
-  exact (finish_nfa_inv V a n HA Ho H).
+  exact (finish_nfa_inv V (fun _ => 1) byte a n HA Ho H).
 Qed.
 End NfaLoop.
 
@@ -284,7 +286,7 @@ Lemma ba_upd_BI a i f a' : BI a -> (forall s, slot_inv (ba_len a) s -> slot_inv 
   ba_upd a i f = Ok a' -> BI a' /\ ba_len a' = ba_len a /\ i < ba_len a.
 Proof.
   intros (H0 & Hm & Hs) Hf H. unfold ba_upd, ba_get in H. destruct (i <? ba_len a) eqn:Ei; [|discriminate].
-  cbn [bind] in H. inversion H; subst a'; clear H. cbn [ba_len ba_map]. split; [|split; [reflexivity|lia]].
+  cbn [bind] in H. inversion H; subst a'; clear H. unfold BI. cbn [ba_len ba_map]. split; [|split; [reflexivity|lia]].
   split; [exact H0|]. split; [exact Hm|]. intros j s Hg.
   destruct (N.eq_dec j i) as [->|Hne].
   - rewrite ngss in Hg. inversion Hg; subst s. apply Hf. destruct (nget i (ba_map a)) eqn:E; [exact (Hs i b E)|].
@@ -372,3 +374,211 @@ Lemma CP_meta a h h' : CP a h -> hmeta h h' -> CP a h'.
 Proof. unfold CP, hmeta. intros [A B] (_ & C & _ & D). split; congruence. Qed.
 
 End Da.
+
+Section Da2.
+Variable V : Type.
+Variable nout : N.
+Notation BI := (BI nout).
+Notation slot_inv := (slot_inv nout).
+
+Ltac bstep H :=
+  match type of H with
+  | bind ?e _ = Ok _ => let E := fresh "E" in destruct e eqn:E; cbn [bind] in H; try discriminate
+  end.
+
+Lemma nseq_in : forall n a x, In x (nseq a n) -> a <= x < a + N.of_nat n.
+Proof.
+  induction n as [|n IH]; intros a x; cbn [nseq]; [intros []|]. intros [<-|H]; [lia|]. apply IH in H. lia.
+Qed.
+Lemma nseq_len : forall n a, length (nseq a n) = n.
+Proof. induction n as [|n IH]; intros a; cbn [nseq length]; [reflexivity|]. rewrite IH. reflexivity. Qed.
+
+(* remove_invalid_checks only rewrites check bytes *)
+Lemma ric_loop_BI : forall cs a h ub a', (forall c, In c cs -> c < 256) -> BI a ->
+  ric_loop a h ub cs = Ok a' -> BI a' /\ ba_len a' = ba_len a.
+Proof.
+  induction cs as [|c cs IH]; intros a h ub a' Hc HB H; cbn [ric_loop] in H; [inversion H; subst; auto|].
+  bstep H. assert (Hcs : forall c0, In c0 cs -> c0 < 256) by (intros c0 H0; apply Hc; right; exact H0).
+  destruct a0.
+  - bstep H. destruct (ba_upd_BI nout a _ _ a0 HB (fun s => set_check_inv nout _ c s (Hc c (or_introl eq_refl))) E0) as (HB1 & L1 & _).
+    destruct (IH _ _ _ _ Hcs HB1 H) as [HB2 L2]. split; [exact HB2|congruence].
+  - exact (IH _ _ _ _ Hcs HB H).
+Qed.
+
+Lemma remove_invalid_checks_BI a h b a' : BI a -> remove_invalid_checks a h b = Ok a' -> BI a' /\ ba_len a' = ba_len a.
+Proof.
+  intros HB H. unfold remove_invalid_checks in H. bstep H. destruct a0 as [u|]; [|inversion H; subst; auto].
+  apply (ric_loop_BI (nseq 0 256) a h u a'); [|exact HB|exact H]. intros c Hc. apply nseq_in in Hc. lia.
+Qed.
+
+Lemma ric_blocks_BI : forall bs a h a', BI a -> ric_blocks a h bs = Ok a' -> BI a' /\ ba_len a' = ba_len a.
+Proof.
+  induction bs as [|b bs IH]; intros a h a' HB H; cbn [ric_blocks] in H; [inversion H; subst; auto|].
+  bstep H. destruct (remove_invalid_checks_BI _ _ _ _ HB E) as [HB1 L1]. destruct (IH _ _ _ HB1 H) as [HB2 L2].
+  split; [exact HB2|congruence].
+Qed.
+
+Lemma BI_grow a : BI a -> BI {| ba_map := ba_map a; ba_len := ba_len a + BLOCK_LEN |}.
+Proof.
+  intros (H0 & Hm & Hs). unfold BI, BLOCK_LEN. cbn [ba_len ba_map]. split; [lia|]. split.
+  - rewrite N.add_mod by discriminate. rewrite Hm. reflexivity.
+  - intros i s Hg. destruct (Hs i s Hg) as (A & B & C). unfold BuildSafe.slot_inv. repeat split; [destruct A; [left; assumption|right; lia]|lia|exact C].
+Qed.
+
+Lemma extend_array_inv a h a' h' : BI a -> CP a h -> extend_array a h = Ok (a', h') ->
+  BI a' /\ CP a' h' /\ ba_len a' = ba_len a + 256.
+Proof.
+  intros HB [C1 C2] H. unfold extend_array in H. destruct (_ <? ba_len a); [discriminate|]. bstep H. bstep H.
+  inversion H; subst a' h'; clear H.
+  assert (HB1 : BI a0 /\ ba_len a0 = ba_len a).
+  { destruct (dropped_block h); [exact (remove_invalid_checks_BI _ _ _ _ HB E)|inversion E; subst; auto]. }
+  destruct HB1 as [HB1 L1]. destruct (push_block_meta _ _ E0) as (_ & P2 & _ & P4).
+  split; [apply BI_grow; exact HB1|]. unfold CP, BLOCK_LEN. cbn [ba_len]. split; [split; [|congruence]|lia].
+  rewrite P4, L1, C1. lia.
+Qed.
+
+Lemma init_array_inv nfb a h : init_array nfb = Ok (a, h) -> BI a /\ CP a h.
+Proof.
+  unfold init_array. intros H. bstep H. bstep H. bstep H. bstep H. inversion H; subst a h; clear H.
+  unfold helper_new in E. destruct (_ <? _); [discriminate|]. destruct (_ =? 0); [discriminate|]. inversion E; subst a0; clear E.
+  destruct (push_block _) as [hh| | | |] eqn:Ep; try discriminate. inversion E0; subst hh; clear E0.
+  destruct (push_block_meta _ _ Ep) as (_ & P2 & _ & P4). cbn [h_block_len h_nblocks] in P2, P4.
+  pose proof (hmeta_trans _ _ _ (use_index_meta _ _ _ E1) (use_index_meta _ _ _ E2)) as (_ & M2 & _ & M4).
+  split.
+  - unfold BuildSafe.BI, BLOCK_LEN. cbn [ba_len ba_map]. split; [lia|]. split; [reflexivity|].
+    intros i s Hg. rewrite nget_empty in Hg. discriminate.
+  - unfold CP, BLOCK_LEN in *. cbn [ba_len]. split; [rewrite M4, P4; lia|congruence].
+Qed.
+
+(* find_base answers an index inside the array, or the array length itself *)
+Lemma find_base_loop_lt : forall fuel h cur l0 labels b,
+  find_base_loop fuel h cur l0 labels = Ok (Some b) -> b < h_nblocks h * h_block_len h.
+Proof.
+  induction fuel as [|fuel IH]; intros h cur l0 labels b H; destruct cur as [idx|]; cbn [find_base_loop] in H; try discriminate.
+  bstep H. bstep H. destruct a0 as [b'|].
+  - inversion H; subst b'. unfold check_valid_base in E0. bstep E0. destruct a0; [discriminate|]. bstep E0.
+    destruct a0; [|discriminate]. destruct (N.lxor idx l0 =? 0); [discriminate|]. inversion E0; subst b.
+    unfold is_used_base in E1. bstep E1. exact (get_item_lt _ _ _ E3).
+  - exact (IH _ _ _ _ _ H).
+Qed.
+
+Lemma find_base_range a h labels base : CP a h -> find_base a h labels = Ok base -> base <= ba_len a.
+Proof.
+  intros [C1 C2] H. unfold find_base in H. destruct labels as [|l0 r]; [discriminate|]. bstep H. destruct a0 as [b|].
+  - inversion H; subst b. apply find_base_loop_lt in E. rewrite C2 in E. lia.
+  - destruct (U32_MAX <? ba_len a); [discriminate|]. destruct (ba_len a =? 0); [discriminate|]. inversion H. lia.
+Qed.
+
+(* the state-id map holds array indices *)
+Definition IM (idmap : nmap N) (len : N) : Prop := forall i x, nget i idmap = Some x -> x < len.
+
+Lemma place_children_inv : forall es a h idmap nst base stack a' h' idmap' stack',
+  (forall c t, In (c, t) es -> c < 256) -> BI a -> IM idmap (ba_len a) ->
+  place_children a h idmap nst base es stack = Ok (a', h', idmap', stack') ->
+  BI a' /\ ba_len a' = ba_len a /\ hmeta h h' /\ IM idmap' (ba_len a).
+Proof.
+  induction es as [|[c ch] es IH]; intros a h idmap nst base stack a' h' idmap' stack' Hl HB HI H; cbn [place_children] in H.
+  - inversion H; subst. split; [exact HB|]. split; [reflexivity|]. split; [apply hmeta_refl|exact HI].
+  - bstep H. bstep H. destruct (ch <? nst); [|discriminate].
+    destruct (ba_upd_BI nout a _ _ a1 HB (fun s => set_check_inv nout _ c s (Hl c ch (or_introl eq_refl))) E0) as (HB1 & L1 & Hlt).
+    assert (HI1 : IM (nset ch (N.lxor base c) idmap) (ba_len a1)).
+    { intros i x Hg. rewrite L1. destruct (N.eq_dec i ch) as [->|Hne]; [rewrite ngss in Hg; inversion Hg; subst; exact Hlt|].
+      rewrite ngso in Hg by exact Hne. exact (HI i x Hg). }
+    destruct (IH _ _ _ _ _ _ _ _ _ _ (fun c0 t H0 => Hl c0 t (or_intror H0)) HB1 HI1 H) as (HB2 & L2 & M2 & HI2).
+    split; [exact HB2|]. split; [congruence|]. split; [exact (hmeta_trans _ _ _ (use_index_meta _ _ _ E) M2)|].
+    rewrite <- L1. exact HI2.
+Qed.
+
+Lemma IM_mono idmap l1 l2 : l1 <= l2 -> IM idmap l1 -> IM idmap l2.
+Proof. intros Hl H i x Hg. specialize (H i x Hg). lia. Qed.
+
+Lemma dfs_loop_inv (n : nfa V) : AllSt V (PL2 V (fun b : N => b < 256) nout) n ->
+  forall fuel a h idmap stack a' h' idmap',
+  BI a -> CP a h -> IM idmap (ba_len a) ->
+  dfs_loop V fuel n a h idmap stack = Ok (a', h', idmap') -> BI a' /\ IM idmap' (ba_len a').
+Proof.
+  intros HN. induction fuel as [|fuel IH]; intros a h idmap stack a' h' idmap' HB HC HI H;
+    destruct stack as [|sid stack]; cbn [dfs_loop] in H; try (inversion H; subst; auto; fail); try discriminate.
+  destruct (sid =? DEAD); [discriminate|]. bstep H. bstep H. destruct (a1 =? DEAD); [discriminate|].
+  destruct (n_edges a0) as [|e0 es0] eqn:Ee; [exact (IH _ _ _ _ _ _ _ HB HC HI H)|]. rewrite <- Ee in H.
+  bstep H. bstep H. destruct a3 as [a3 h3]. bstep H. destruct a4 as [[[a4 h4] idmap4] stack4]. bstep H. bstep H.
+  pose proof (find_base_range _ _ _ _ HC E1) as Hbase.
+  assert (Hext : BI a3 /\ CP a3 h3 /\ ba_len a <= ba_len a3 /\ a2 < ba_len a3).
+  { destruct (ba_len a <=? a2) eqn:El.
+    - destruct (extend_array_inv _ _ _ _ HB HC E2) as (X1 & X2 & X3). split; [exact X1|]. split; [exact X2|]. split; lia.
+    - inversion E2; subst a3 h3. split; [exact HB|]. split; [exact HC|]. split; lia. }
+  destruct Hext as (HB3 & HC3 & Hle & Hb).
+  destruct (HN sid a0 (nfa_get_some V n sid a0 E)) as [_ Hlab].
+  destruct (place_children_inv _ _ _ _ _ _ _ _ _ _ _ Hlab HB3 (IM_mono _ _ _ Hle HI) E3) as (HB4 & L4 & M4 & HI4).
+  assert (Hb4 : a2 < ba_len a4) by lia.
+  destruct (ba_upd_BI nout a4 _ _ a5 HB4 (fun s => set_base_inv nout _ a2 s Hb4) E4) as (HB5 & L5 & _).
+  apply (IH a5 a6 idmap4 stack4 a' h' idmap'); [exact HB5| |rewrite L5, L4; exact HI4|exact H].
+  apply (CP_meta a5 h3); [|exact (hmeta_trans _ _ _ M4 (use_base_meta _ _ _ E5))].
+  destruct HC3 as [C1 C2]. split; [congruence|exact C2].
+Qed.
+
+Lemma set_fails_loop_inv (n : nfa V) : AllSt V (PL2 V (fun b : N => b < 256) nout) n ->
+  forall ids a idmap a', BI a -> IM idmap (ba_len a) ->
+  set_fails_loop V n a idmap ids = Ok a' -> BI a' /\ ba_len a' = ba_len a.
+Proof.
+  intros HN. induction ids as [|i ids IH]; intros a idmap a' HB HI H; cbn [set_fails_loop] in H; [inversion H; subst; auto|].
+  destruct (i =? DEAD); [exact (IH _ _ _ HB HI H)|]. bstep H. destruct (a0 =? DEAD); [discriminate|]. bstep H.
+  destruct (U24_MAX <? n_outpos a1); [discriminate|]. bstep H.
+  destruct (HN i a1 (nfa_get_some V n i a1 E0)) as [Hop _].
+  destruct (ba_upd_BI nout a _ _ a2 HB (fun s => set_outpos_inv nout _ _ s Hop) E1) as (HB2 & L2 & _).
+  pose proof (BI_len nout a HB) as Hlen.
+  destruct (n_fail a1 =? DEAD).
+  - bstep H. assert (Hd : DEAD < ba_len a2) by (unfold DEAD; lia).
+    destruct (ba_upd_BI nout a2 _ _ a3 HB2 (fun s => set_bfail_inv nout _ _ s Hd) E2) as (HB3 & L3 & _).
+    destruct (IH a3 idmap a' HB3 ltac:(rewrite L3, L2; exact HI) H) as [X1 X2]. split; [exact X1|congruence].
+  - bstep H. destruct (a3 =? DEAD); [discriminate|]. bstep H.
+    assert (Hf : a3 < ba_len a2).
+    { unfold idmap_get in E2. destruct (_ <? _); [|discriminate]. inversion E2; subst a3.
+      destruct (nget (n_fail a1) idmap) eqn:Eg; [rewrite L2; exact (HI _ _ Eg)|unfold DEAD; lia]. }
+    destruct (ba_upd_BI nout a2 _ _ a4 HB2 (fun s => set_bfail_inv nout _ _ s Hf) E3) as (HB3 & L3 & _).
+    destruct (IH a4 idmap a' HB3 ltac:(rewrite L3, L2; exact HI) H) as [X1 X2]. split; [exact X1|congruence].
+Qed.
+
+Theorem build_double_array_inv nfb (n : nfa V) sts : AllSt V (PL2 V (fun b : N => b < 256) nout) n ->
+  build_double_array V nfb n = Ok sts ->
+  0 < N.of_nat (length sts) /\ N.of_nat (length sts) mod 256 = 0
+  /\ Forall (slot_inv (N.of_nat (length sts))) sts.
+Proof.
+  intros HN H. unfold build_double_array in H.
+  destruct (init_array nfb) as [[a0 h0]| | | |] eqn:E; cbn [bind] in H; try discriminate.
+  destruct (dfs_loop V _ n a0 h0 _ _) as [[[a1 h1] idmap]| | | |] eqn:E0; cbn [bind] in H; try discriminate.
+  destruct (set_fails_loop V n a1 idmap _) as [a2| | | |] eqn:E1; cbn [bind] in H; try discriminate.
+  destruct (ric_blocks a2 h1 _) as [a3| | | |] eqn:E2; cbn [bind] in H; try discriminate.
+  inversion H; subst sts; clear H.
+  destruct (init_array_inv _ _ _ E) as [HB0 HC0].
+  assert (HI0 : IM (nset ROOT ROOT nempty) (ba_len a0)).
+  { intros i x Hg. destruct (N.eq_dec i ROOT) as [->|Hne]; [rewrite ngss in Hg; inversion Hg; destruct HB0; unfold ROOT; lia|].
+    rewrite ngso in Hg by exact Hne. rewrite nget_empty in Hg. discriminate. }
+  destruct (dfs_loop_inv n HN _ _ _ _ _ _ _ _ HB0 HC0 HI0 E0) as [HB1 HI1].
+  destruct (set_fails_loop_inv n HN _ _ _ _ HB1 HI1 E1) as [HB2 L2].
+  destruct (ric_blocks_BI _ _ _ _ HB2 E2) as [(H0 & Hm & Hs) L3].
+  unfold barr_to_list. rewrite map_length, nseq_len, N2Nat.id. split; [exact H0|]. split; [exact Hm|].
+  apply Forall_forall. intros s Hin. apply in_map_iff in Hin as [i [<- _]].
+  destruct (nget i (ba_map a3)) eqn:Eg; [exact (Hs i b Eg)|apply slot_inv_default; exact H0].
+Qed.
+End Da2.
+
+(* ---- C07 for the byte-wise builder ------------------------------------------------------------ *)
+Theorem bw_build_safe_lemma (V : Type) k nfb (pvs : list (list N * V)) A :
+  (forall p v, In (p, v) pvs -> Forall (fun b => b < 256) p) ->
+  bw_build_with_values V k nfb pvs = Ok A -> bw_safe_b A = true.
+Proof.
+  intros Hb H. unfold bw_build_with_values in H. destruct (nfb =? 0); [discriminate|].
+  destruct (bw_build_sparse_nfa V k pvs) as [n| | | |] eqn:En; cbn [bind] in H; try discriminate.
+  destruct (build_double_array V nfb n) as [sts| | | |] eqn:Ed; cbn [bind] in H; try discriminate.
+  destruct (U32_MAX <? n_nstates n - 1); [discriminate|]. inversion H; subst A; clear H.
+  destruct (bw_sparse_nfa_inv V k pvs n Hb En) as [HA HO].
+  destruct (build_double_array_inv V _ nfb n sts HA Ed) as (H0 & Hm & Hs).
+  unfold bw_safe_b. cbn [bw_states bw_outputs]. rewrite !andb_true_iff. repeat split.
+  - apply N.ltb_lt. exact H0.
+  - apply N.eqb_eq. exact Hm.
+  - apply forallb_forall. intros s Hin. rewrite Forall_forall in Hs. destruct (Hs s Hin) as (A1 & A2 & A3).
+    unfold bw_slot_ok. rewrite !andb_true_iff. repeat split; [|apply N.ltb_lt; exact A2|apply N.leb_le; exact A3].
+    apply orb_true_iff. destruct A1 as [A1|A1]; [left; apply N.eqb_eq; exact A1|right; apply N.ltb_lt; exact A1].
+  - apply forallb_forall. intros o Hin. rewrite Forall_forall in HO. apply N.leb_le. exact (HO o Hin).
+Qed.
